@@ -142,7 +142,7 @@ static void mpmcRun(const char* name) {
   h.name = name;
   g_live = 0;
   {
-    std::unique_ptr<Ring> ringOwner(new Ring()); // heap: see the store-buffer fault
+    auto ringOwner = hx::heapNew<Ring>(); // heap: see the store-buffer fault
     Ring& ring = *ringOwner;
     h.capacity = Ring::capacity();
     int nProd = range(1, 3), nCons = range(1, 3);
@@ -494,7 +494,7 @@ template <size_t Cap>
 static void dequeRun() {
   char cls[128];
   // on the heap: stores to the running thread's own stack are never put in the simulated store buffer
-  std::unique_ptr<dispenso::ChaseLevDeque<int, Cap>> dqOwner(new dispenso::ChaseLevDeque<int, Cap>());
+  auto dqOwner = hx::heapNew<dispenso::ChaseLevDeque<int, Cap>>();
   dispenso::ChaseLevDeque<int, Cap>& dq = *dqOwner;
   int nThieves = range(1, 3);
   int nOps = range(1, 40);
